@@ -7,21 +7,27 @@ namespace XC.C47
 /-- the fields the AKE code dereferences (what `AkeInv` talks about) -/
 def akeView (p : Party) : Auth × Option Id × Option Id × Option Id := (p.auth, p.gy, p.y, p.x)
 
-/-- `q` differs from `p` at most in fields the AKE invariant does not read, and keeps the slot invariant -/
+/-- `c.smp.saved`, when set, is an SMP1 message (TLV type 2 or 7): `Authenticate` re-runs `processSMP` on
+    it and panics if that "completes", which only SMP3 / SMP4 can -/
+def SavedInv (p : Party) : Prop := ∀ t, p.saved = some t → (t.typ = 2 ∨ t.typ = 7)
+
+/-- `q` differs from `p` at most in fields the AKE invariant does not read, and keeps the slot and
+    saved-TLV invariants -/
 structure Keeps (p q : Party) : Prop where
   view : akeView q = akeView p
   slots : SlotInv p.slots → SlotInv q.slots
+  saved : SavedInv p → SavedInv q
 
-theorem Keeps.refl (p : Party) : Keeps p p := ⟨rfl, id⟩
+theorem Keeps.refl (p : Party) : Keeps p p := ⟨rfl, id, id⟩
 
 theorem Keeps.trans {p q r : Party} (h1 : Keeps p q) (h2 : Keeps q r) : Keeps p r :=
-  ⟨h2.view.trans h1.view, fun h => h2.slots (h1.slots h)⟩
+  ⟨h2.view.trans h1.view, fun h => h2.slots (h1.slots h), fun h => h2.saved (h1.saved h)⟩
 
-theorem keeps_newId (p : Party) : Keeps p p.newId.1 := ⟨rfl, id⟩
+theorem keeps_newId (p : Party) : Keeps p p.newId.1 := ⟨rfl, id, id⟩
 
 theorem keeps_rotate (p : Party) : Keeps p p.rotate :=
   ⟨by simp [akeView, Party.rotate, Party.newId], fun h => by
-    simp only [Party.rotate, Party.newId]; exact slotInv_evict _ h⟩
+    simp only [Party.rotate, Party.newId]; exact slotInv_evict _ h, id⟩
 
 theorem keeps_calc (p : Party) (a b : Nat) : Keeps p (p.calcDataKeys a b).1 := by
   unfold Party.calcDataKeys
@@ -35,8 +41,8 @@ theorem keeps_calc (p : Party) (a b : Nat) : Keeps p (p.calcDataKeys a b).1 := b
       simp only
       have hmiss := miss_not_mem p.slots a b hhit
       split
-      · exact ⟨rfl, fun h => slotInv_set i _ h hmiss⟩
-      · exact ⟨rfl, fun h => slotInv_release i h⟩
+      · exact ⟨rfl, fun h => slotInv_set i _ h hmiss, id⟩
+      · exact ⟨rfl, fun h => slotInv_release i h, id⟩
 
 theorem myKeyFor_last (p : Party) : ∃ m, p.myKeyFor (pred32 p.myKeyId) = some m := by
   unfold Party.myKeyFor
@@ -78,15 +84,21 @@ theorem genData_ok (p : Party) (text : Bytes) (extra : Option STlv) (h : SlotInv
     rw [hc] at hs hk
     cases oi with
     | none => exact absurd rfl hs
-    | some i => exact ⟨_, _, rfl, ⟨hk.view, hk.slots⟩⟩
+    | some i => exact ⟨_, _, rfl, ⟨hk.view, hk.slots, hk.saved⟩⟩
 
 theorem keeps_procSMP (p : Party) (t : SmpIn) : Keeps p (p.procSMP t).1 := by
   fun_cases Party.procSMP p t <;> first
-    | exact ⟨rfl, id⟩
+    | exact ⟨rfl, id, id⟩
     | (simp only [Party.newId, Prod.mk.injEq] at *
        rename_i h
        obtain ⟨rfl, rfl⟩ := h
-       exact ⟨rfl, id⟩)
+       exact ⟨rfl, id, id⟩)
+
+/-- only an SMP1 message (TLV 2 / 7) can ask for the secret, and only SMP3 / SMP4 can complete -/
+theorem procSMP_facts (p : Party) (t : SmpIn) :
+    ((p.procSMP t).2.err = .secretMissing → (t.typ = 2 ∨ t.typ = 7)) ∧
+    ((t.typ = 2 ∨ t.typ = 7) → (p.procSMP t).2.complete = false) := by
+  fun_cases Party.procSMP p t <;> simp_all <;> first | omega | (split <;> simp)
 
 /-- the `EachTLV` loop returns (its only panic is `generateData`'s) and keeps the invariants -/
 theorem tlvLoop_ok (ts : List RTlv) : ∀ (p : Party) (o : Out), SlotInv p.slots →
@@ -97,16 +109,21 @@ theorem tlvLoop_ok (ts : List RTlv) : ∀ (p : Party) (o : Out), SlotInv p.slots
     intro p o hs
     cases t with
     | other => simpa [Party.tlvLoop] using ih p o hs
-    | disconnect => exact ⟨_, _, rfl, ⟨rfl, id⟩⟩
+    | disconnect => exact ⟨_, _, rfl, ⟨rfl, id, id⟩⟩
     | smp t =>
       have hk := keeps_procSMP p t
+      have hf := (procSMP_facts p t).1
       unfold Party.tlvLoop
       cases hr : p.procSMP t with
       | mk p1 r =>
-        rw [hr] at hk
+        rw [hr] at hk hf
         simp only
         split
-        · exact ⟨_, _, rfl, ⟨hk.view, hk.slots⟩⟩
+        · rename_i hmiss
+          refine ⟨_, _, rfl, ⟨hk.view, hk.slots, fun _ t' ht' => ?_⟩⟩
+          have : t' = t := by simpa using ht'.symm
+          subst this
+          exact hf (by simpa using hmiss)
         · cases hrep : r.reply with
           | none => exact ⟨_, _, rfl, hk⟩
           | some rep =>
@@ -118,7 +135,7 @@ theorem tlvLoop_ok (ts : List RTlv) : ∀ (p : Party) (o : Out), SlotInv p.slots
 theorem keeps_storeCtr (p : Party) (i : Nat) (c : Bytes) : Keeps p (p.storeCtr i c) :=
   ⟨rfl, fun h => ⟨by simpa [Party.storeCtr] using h.1, by
     show (usedKeys (p.slots.set i { p.slots.getD i {} with lastCtr := c })).Nodup
-    rw [usedKeys_set_ctr]; exact h.2⟩⟩
+    rw [usedKeys_set_ctr]; exact h.2⟩, id⟩
 
 theorem keeps_rotateMine (p : Party) (rkid : Nat) : Keeps p (p.rotateMine rkid) := by
   unfold Party.rotateMine
@@ -129,7 +146,7 @@ theorem keeps_rotateMine (p : Party) (rkid : Nat) : Keeps p (p.rotateMine rkid) 
 theorem keeps_rotateTheirs (p : Party) (skid : Nat) (next : Id) : Keeps p (p.rotateTheirs skid next) := by
   unfold Party.rotateTheirs
   split
-  · exact ⟨rfl, fun h => slotInv_evict _ h⟩
+  · exact ⟨rfl, fun h => slotInv_evict _ h, id⟩
   · exact Keeps.refl p
 
 theorem deliver_ok (p : Party) (d : DataMsg) (hs : SlotInv p.slots) :
@@ -283,5 +300,157 @@ theorem slotInv_recv (p : Party) (i : In) (hs : SlotInv p.slots) :
     rename_i q i hx s d _
     simp only [R.ok.injEq, Prod.mk.injEq] at hr; obtain ⟨rfl, _⟩ := hr
     exact calc_slots hx hs
+
+/-! ### `c.smp.saved` and `Authenticate` -/
+
+theorem genKey_saved {q r : Party} {m : Msg} (h : q.genKey = (r, m)) : r.saved = q.saved := by
+  simp only [Party.genKey, Party.newId, Prod.mk.injEq] at h
+  rw [← h.1]
+
+theorem genCommit_saved {q r : Party} {m : Msg} {dg : Bytes} (h : q.genCommit dg = (r, m)) :
+    r.saved = q.saved := by
+  simp only [Party.genCommit, Party.newId, Prod.mk.injEq] at h
+  rw [← h.1]
+
+theorem genReveal_saved {q r : Party} {m : Msg} (h : q.genReveal = .ok (r, m)) : r.saved = q.saved := by
+  unfold Party.genReveal at h
+  split at h
+  · injection h with h
+    simp only [Prod.mk.injEq] at h
+    rw [← h.1]
+    simp [Party.rotate, Party.newId]
+  · cases h
+
+theorem genSig_saved {q r : Party} {m : Msg} (h : q.genSig = (r, m)) : r.saved = q.saved := by
+  simp only [Party.genSig, Prod.mk.injEq] at h
+  rw [← h.1]
+  simp [Party.rotate, Party.newId]
+
+theorem gyMatch_saved {p r : Party} {y : Id} {b : Bool}
+    (h : (match p.gy with
+          | some g => (p, decide (g = y))
+          | none => ({ p with gy := some y }, false)) = (r, b)) : r.saved = p.saved := by
+  cases hg : p.gy <;> simp only [hg, Prod.mk.injEq] at h <;> rw [← h.1]
+
+theorem calc_saved {p q : Party} {oi : Option Nat} {a b : Nat} (hx : p.calcDataKeys a b = (q, oi))
+    (hs : SavedInv p) : SavedInv q := by
+  have := (keeps_calc p a b).saved hs
+  rw [hx] at this; exact this
+
+/-- every `Receive` keeps "`c.smp.saved` is an SMP1 message" -/
+theorem savedInv_recv (p : Party) (i : In) (hs : SlotInv p.slots) (hv : SavedInv p) :
+    ∀ p' o, p.recv i = .ok (p', o) → SavedInv p' := by
+  fun_cases Party.recv p i
+  all_goals (intro p' o hr)
+  all_goals first
+    | (simp only [R.ok.injEq, Prod.mk.injEq] at hr; obtain ⟨rfl, _⟩ := hr; exact hv)
+    | (cases hr; done)
+    | skip
+  case case3 =>
+    rename_i dg p1 q m hx
+    simp only [R.ok.injEq, Prod.mk.injEq] at hr; obtain ⟨rfl, _⟩ := hr
+    intro t ht; rw [genCommit_saved hx] at ht; exact hv t ht
+  case case5 =>
+    rename_i p1 q m hx
+    simp only [R.ok.injEq, Prod.mk.injEq] at hr; obtain ⟨rfl, _⟩ := hr
+    intro t ht; rw [genKey_saved hx] at ht; exact hv t ht
+  case case8 =>
+    rename_i p1 q m hx
+    simp only [R.ok.injEq, Prod.mk.injEq] at hr; obtain ⟨rfl, _⟩ := hr
+    intro t ht; rw [genKey_saved hx] at ht; exact hv t ht
+  case case13 =>
+    rename_i q m hx
+    simp only [R.ok.injEq, Prod.mk.injEq] at hr; obtain ⟨rfl, _⟩ := hr
+    intro t ht
+    have ht' : q.saved = some t := ht
+    rw [genKey_saved hx] at ht'; exact hv t ht'
+  case case15 =>
+    rename_i q hx
+    simp only [R.ok.injEq, Prod.mk.injEq] at hr; obtain ⟨rfl, _⟩ := hr
+    intro t ht; rw [gyMatch_saved hx] at ht; exact hv t ht
+  case case17 =>
+    rename_i p1 same hx _ q m hg
+    simp only [R.ok.injEq, Prod.mk.injEq] at hr; obtain ⟨rfl, _⟩ := hr
+    intro t ht
+    have ht' : q.saved = some t := ht
+    rw [genReveal_saved hg, gyMatch_saved hx] at ht'; exact hv t ht'
+  case case20 =>
+    rename_i q m _ hx
+    simp only [R.ok.injEq, Prod.mk.injEq] at hr; obtain ⟨rfl, _⟩ := hr
+    intro t ht; rw [gyMatch_saved hx] at ht; exact hv t ht
+  case case21 =>
+    rename_i q same hx _
+    simp only [R.ok.injEq, Prod.mk.injEq] at hr; obtain ⟨rfl, _⟩ := hr
+    intro t ht; rw [gyMatch_saved hx] at ht; exact hv t ht
+  case case28 =>
+    rename_i q m hx
+    simp only [R.ok.injEq, Prod.mk.injEq] at hr; obtain ⟨rfl, _⟩ := hr
+    intro t ht
+    have ht' : q.saved = some t := ht
+    rw [genSig_saved hx] at ht'; exact hv t ht'
+  case case37 =>
+    rename_i q hx
+    simp only [R.ok.injEq, Prod.mk.injEq] at hr; obtain ⟨rfl, _⟩ := hr
+    exact calc_saved hx hv
+  case case38 =>
+    rename_i q i hx
+    simp only [R.ok.injEq, Prod.mk.injEq] at hr; obtain ⟨rfl, _⟩ := hr
+    exact calc_saved hx hv
+  case case39 =>
+    rename_i q i hx s d _
+    have hq := calc_slots hx hs
+    obtain ⟨q', o', h, hk⟩ := acceptData_ok q i d hq
+    rw [h] at hr
+    simp only [R.ok.injEq, Prod.mk.injEq] at hr; obtain ⟨rfl, _⟩ := hr
+    exact hk.saved (calc_saved hx hv)
+  case case40 =>
+    rename_i q i hx s d _
+    simp only [R.ok.injEq, Prod.mk.injEq] at hr; obtain ⟨rfl, _⟩ := hr
+    exact calc_saved hx hv
+
+/-- the loop of `Authenticate` that wraps each TLV of `startSMP` into a data message -/
+theorem sendTlvs_ok (tlvs : List STlv) : ∀ (p : Party) (acc : List Msg), SlotInv p.slots →
+    ∃ q ms, p.sendTlvs tlvs acc = .ok (q, ms) ∧ Keeps p q := by
+  induction tlvs with
+  | nil => intro p acc _; exact ⟨p, acc, rfl, Keeps.refl p⟩
+  | cons t ts ih =>
+    intro p acc hs
+    obtain ⟨q, m, hg, hk⟩ := genData_ok p [] (some t) hs
+    unfold Party.sendTlvs
+    rw [hg]
+    obtain ⟨q', ms, h, hk'⟩ := ih q (acc ++ [m]) (hk.slots hs)
+    exact ⟨q', ms, h, hk.trans hk'⟩
+
+theorem answerSMP_ok (p : Party) (t : SmpIn) (secret : Bytes) (hs : SlotInv p.slots)
+    (htyp : t.typ = 2 ∨ t.typ = 7) :
+    ∃ q o, p.answerSMP t secret = .ok (q, o) ∧ akeView q = akeView p ∧ SlotInv q.slots ∧ SavedInv q := by
+  unfold Party.answerSMP
+  dsimp only
+  have hk := keeps_procSMP { p with secret := some ⟨1 - p.side, p.side, p.ssid, secret⟩ } t
+  have hc := (procSMP_facts { p with secret := some ⟨1 - p.side, p.side, p.ssid, secret⟩ } t).2 htyp
+  rw [hc]
+  simp only [Bool.false_eq_true, if_false]
+  split
+  · exact ⟨_, _, rfl, hk.view, hk.slots hs, fun t' ht' => by cases ht'⟩
+  · obtain ⟨q, m, hg, hkq⟩ := genData_ok
+      { ({ p with secret := some ⟨1 - p.side, p.side, p.ssid, secret⟩ } : Party).procSMP t |>.1 with saved := none }
+      [] (some _) (hk.slots hs)
+    rw [hg]
+    exact ⟨_, _, rfl, hkq.view.trans hk.view, hkq.slots (hk.slots hs), hkq.saved (fun t' ht' => by cases ht')⟩
+
+/-- **`Authenticate` returns**: neither `generateData` nor the explicit
+    `panic("SMP completed on the first message")` is reachable, and the invariants are kept -/
+theorem authenticate_ok (p : Party) (question secret : Bytes) (hs : SlotInv p.slots) (hv : SavedInv p) :
+    ∃ q o, p.authenticate question secret = .ok (q, o) ∧
+      akeView q = akeView p ∧ SlotInv q.slots ∧ SavedInv q := by
+  unfold Party.authenticate
+  split
+  · exact ⟨_, _, rfl, rfl, hs, hv⟩
+  · split
+    · rename_i t ht
+      exact answerSMP_ok p t secret hs (hv t ht)
+    · obtain ⟨q, ms, hg, hk⟩ := sendTlvs_ok (p.smpStartTlvs question) (p.smpStartState secret) [] hs
+      rw [hg]
+      exact ⟨_, _, rfl, hk.view, hk.slots hs, hk.saved hv⟩
 
 end XC.C47
